@@ -703,7 +703,9 @@ func (m *machine) event(c *core.Ctx, op string, ev *discovery.Event, publishes b
 
 // evStep is one scheduled event of a state-machine case.
 type evStep struct {
-	// up | down | cfg | cfgq | deliver | deliverlast | dup | putfail | statefail | burst | failover | drop
+	// up | down | cfg | cfgq | deliver | deliverlast | dup | putfail | statefail | burst | failover | drop |
+	// register | crash | delivernode (lagging node watch) | getfail | listfail (repository read faults) |
+	// cfgshrink (config with fewer shards than persisted) | badcfg | badnode (malformed events)
 	kind string
 	// up/down: node id; cfg/cfgq: db, shards (create) or extra shards (grow), replica factor;
 	// drop/deliver/deliverlast/dup: db; putfail: which of the next assignment Puts fails (1 or 2)
@@ -792,7 +794,9 @@ var scripts = [][]evStep{
 		{"listfail", 0, 0, 0, nil}, {"cfg", 2, 2, 2, nil}, {"listfail", 0, 0, 0, nil}, {"cfg", 0, 1, 0, nil}, {"cfg", 2, 1, 0, nil}, {"down", 1, 0, 0, nil},
 		{kind: "failover", burst: []evStep{{"getfail", 0, 0, 0, nil}}}, {"cfg", 0, 1, 0, nil},
 		{kind: "failover", burst: []evStep{{"up", 5, 0, 0, nil}, {"down", 2, 0, 0, nil}, {"getfail", 0, 0, 0, nil}}}, {"getfail", 0, 0, 0, nil}, {"cfgq", 1, 2, 0, nil},
-		{"getfail", 0, 0, 0, nil}, {"putfail", 1, 0, 0, nil}, {"cfg", 1, 1, 0, nil}, {"deliver", 1, 0, 0, nil}, {"cfg", 1, 1, 0, nil}},
+		{"getfail", 0, 0, 0, nil}, {"putfail", 1, 0, 0, nil}, {"cfg", 1, 1, 0, nil}, {"deliver", 1, 0, 0, nil}, {"cfg", 1, 1, 0, nil},
+		{"badcfg", 0, 0, 0, nil}, {"badcfg", 1, 0, 0, nil}, {"badcfg", 2, 0, 0, nil}, {"badnode", 0, 0, 0, nil}, {"badnode", 1, 0, 0, nil},
+		{"cfgshrink", 0, 1, 0, nil}, {"cfg", 0, 0, 0, nil}, {"cfg", 0, 2, 0, nil}, {kind: "failover"}, {"cfgshrink", 1, 0, 0, nil}, {kind: "failover"}, {"cfg", 1, 3, 0, nil}},
 }
 
 func machineCase(c *core.Ctx, r *rand.Rand) {
@@ -834,6 +838,7 @@ func machineCase(c *core.Ctx, r *rand.Rand) {
 		c.Branch("case-with-read-faults")
 	}
 	nodePend := 0
+	exists := map[int]bool{} // databases that (probably) have a persisted assignment (bias only)
 	// the generator keeps its own picture of the live set only to bias choices (repeated start-up,
 	// failure of a dead node); the events themselves are unconstrained
 	live := map[int]bool{}
@@ -930,6 +935,14 @@ func machineCase(c *core.Ctx, r *rand.Rand) {
 				evs = append(evs, evStep{"putfail", 1 + r.Intn(2), 0, 0, nil})
 			}
 			ck, dd := "cfg", r.Intn(nDB)
+			if !exists[dd] && r.Intn(4) != 0 { // mostly: a database that already has an assignment
+				for x := 0; x < nDB; x++ {
+					if exists[x] {
+						dd = x
+					}
+				}
+			}
+			exists[dd] = true
 			if lagging && r.Intn(2) == 0 {
 				ck = "cfgq"
 				pend[dd]++
@@ -1023,15 +1036,26 @@ func machineCase(c *core.Ctx, r *rand.Rand) {
 			}
 		case k < 9:
 			kind, dd := "cfg", r.Intn(nDB)
+			if x := r.Intn(40); x == 0 {
+				evs = append(evs, evStep{"badcfg", r.Intn(3), 0, 0, nil})
+			} else if x == 1 {
+				evs = append(evs, evStep{"badnode", r.Intn(2), 0, 0, nil})
+			}
 			if lagging && r.Intn(3) != 0 {
 				kind = "cfgq"
 				pend[dd]++
 			} else {
 				pend[dd] = 0
+				if r.Intn(12) == 0 {
+					kind = "cfgshrink"
+				}
 			}
+			exists[dd] = true
 			evs = append(evs, evStep{kind, dd, 1 + r.Intn(maxShards), 1 + r.Intn(maxRF), nil})
 		default:
-			evs = append(evs, evStep{"drop", r.Intn(nDB), 0, 0, nil})
+			dd := r.Intn(nDB)
+			delete(exists, dd)
+			evs = append(evs, evStep{"drop", dd, 0, 0, nil})
 		}
 	}
 	machineRun(c, r, evs)
@@ -1114,6 +1138,29 @@ func (m *machine) judgePlacement(c *core.Ctx, d int, cfg *models.Database, befor
 	return after, newRaw, true
 }
 
+// noopEvent feeds an event the manager has to reject or ignore: neither its state nor any persisted
+// assignment may change (the model answers with its unchanged state).
+func (m *machine) noopEvent(c *core.Ctx, op string, ev *discovery.Event) {
+	before := m.repo.snapshot(constants.ShardAssignmentPath + "/")
+	m.repo.mu.Lock()
+	m.repo.faultFired = false
+	m.repo.mu.Unlock()
+	c.Guard(op, func() string {
+		master.VerifProcessEvent(m.mgr, ev)
+		out := m.dump()
+		after := m.repo.snapshot(constants.ShardAssignmentPath + "/")
+		same := len(before) == len(after)
+		for k, v := range before {
+			same = same && after[k] == v
+		}
+		if !same {
+			out += " persisted-assignments-changed"
+		}
+		return out
+	})
+	m.oracle(c, op)
+}
+
 // cfgh mirrors the repository side of one handled config event in the model (stateManager.shardAssignment:
 // GetShardAssign -> create / modify / re-trigger, storage.GetLiveNodes, the two Puts): the model is given
 // what the handler found (registered nodes in listing order, the persisted assignment, the armed faults)
@@ -1184,12 +1231,37 @@ func machineRun(c *core.Ctx, _ *rand.Rand, evs []evStep) {
 			m.burst(c, e.burst)
 		case "failover":
 			m.failover(c, e.burst)
-		case "cfg", "cfgq": // create database / grow shards
+		case "badcfg": // a config event the handler must reject: invalid JSON, empty database name, empty value
+			var val []byte
+			switch e.a % 3 {
+			case 0:
+				val = []byte("{\"name\":\"db1\",\"numOfShard\":")
+			case 1:
+				val, _ = json.Marshal(&models.Database{Name: "", NumOfShard: 2, ReplicaFactor: 1})
+			}
+			c.Branch(fmt.Sprintf("ev-badcfg-%d", e.a%3))
+			m.noopEvent(c, "noop badcfg", &discovery.Event{Type: discovery.DatabaseConfigChanged, Key: constants.GetDatabaseConfigPath("db1"), Value: val})
+		case "badnode": // a node event the handler must ignore: failure of a non-numeric key, start-up with an undecodable value
+			if e.a%2 == 0 {
+				c.Branch("ev-badnode-failure-key")
+				m.noopEvent(c, "noop badnode", &discovery.Event{Type: discovery.NodeFailure, Key: constants.GetStorageLiveNodePath("node-x")})
+			} else {
+				c.Branch("ev-badnode-startup-value")
+				m.noopEvent(c, "noop badnode", &discovery.Event{Type: discovery.NodeStartup, Key: constants.GetStorageLiveNodePath("1"), Value: []byte("{\"id\":")})
+			}
+		case "cfg", "cfgq", "cfgshrink": // create database / grow shards / (cfgshrink) ask for fewer shards than there are
 			d := e.a
 			cfg, ok := m.dbs[d]
 			if !ok {
 				cfg = &models.Database{Name: dbName(d), NumOfShard: e.b, ReplicaFactor: e.c}
 				c.Branch("ev-create-db")
+			} else if e.kind == "cfgshrink" {
+				n := cfg.NumOfShard - 1 - e.b%2
+				if n < 1 {
+					n = 1
+				}
+				cfg = &models.Database{Name: cfg.Name, NumOfShard: n, ReplicaFactor: cfg.ReplicaFactor}
+				c.Branch("ev-shrink-db")
 			} else {
 				cfg = &models.Database{Name: cfg.Name, NumOfShard: cfg.NumOfShard + e.b%4, ReplicaFactor: cfg.ReplicaFactor}
 				c.Branch("ev-grow-db")
@@ -1280,7 +1352,7 @@ func machineRun(c *core.Ctx, _ *rand.Rand, evs []evStep) {
 			} else {
 				c.Branch("ev-cfg-nothing-persisted")
 			}
-			if e.kind == "cfg" { // prompt: the watch catches up with everything persisted for this database
+			if e.kind != "cfgq" { // prompt: the watch catches up with everything persisted for this database
 				for len(m.pending[d]) > 0 {
 					raw := m.pending[d][0]
 					m.pending[d] = m.pending[d][1:]
